@@ -115,7 +115,9 @@ _BUILTIN_NAMES = {'type', 'float', 'object', 'ord', 'chr', 'len', 'range', 'list
                   'max', 'any', 'all', 'isinstance', 'str', 'int', 'bool', 'abs', 'sum', 'reversed', 'zip', 'hasattr', 'getattr',
                   'print'}
 _STR_METHODS = {'strip', 'lstrip', 'rstrip', 'lower', 'upper', 'startswith', 'endswith', 'find', 'rfind', 'index', 'count',
-                'split', 'join', 'replace', 'isspace', 'isdigit', 'isalpha', 'splitlines', 'format', 'rjust', 'ljust', 'zfill'}
+                'split', 'join', 'replace', 'isspace', 'isdigit', 'isalpha', 'splitlines', 'format', 'rjust', 'ljust', 'zfill',
+                'isascii', 'isalnum', 'islower', 'isupper', 'isnumeric', 'isdecimal', 'casefold', 'capitalize', 'title', 'swapcase',
+                'rsplit', 'partition', 'rpartition', 'removeprefix', 'removesuffix'}
 _LIST_METHODS = {'append', 'extend', 'insert', 'pop', 'index', 'count', 'remove', 'copy', 'clear', 'sort', 'reverse'}
 _DICT_METHODS = {'get', 'items', 'keys', 'values', 'setdefault', 'update', 'pop'}
 
@@ -257,6 +259,16 @@ class Interp:
             return o
         if callable(f) and getattr(f, '_ointerp_native', False):
             return f(self, list(args), kwargs)
+        if isinstance(f, tuple) and f:
+            # builtins, str.method and bound methods of plain values handed on as values (map(str.isalpha, xs), key=len)
+            if f[0] == 'builtin' and len(f) == 2:
+                return self.builtin(f[1], list(args), kwargs, node)
+            if f[0] == 'strfn' and len(f) == 2:
+                if not args or not isinstance(args[0], str):
+                    raise PyExc('TypeError: str.%s needs a string' % f[1])
+                return self.method(args[0], f[1], list(args)[1:], kwargs, node)
+            if f[0] == 'method' and len(f) == 3:
+                return self.method(f[1], f[2], list(args), kwargs, node)
         self.fail(node, 'call of %r' % (f,))
 
     def instantiate(self, cls, args, kwargs, node):
@@ -453,7 +465,19 @@ class Interp:
 
     # ---- values
     def truth(self, v):
-        if isinstance(v, (Obj, Native, ClassRef, FuncRef, Bound, Closure, Gen)):
+        if isinstance(v, Obj):
+            # __bool__, else __len__ of the interpreted class decide (a container-like class may be falsy)
+            b = self.dunder(v, '__bool__')
+            if b is not None:
+                return self.truth(self.call_function(b, [], {}, None, selfobj=v))
+            ln = self.dunder(v, '__len__')
+            if ln is not None:
+                n = self.call_function(ln, [], {}, None, selfobj=v)
+                if not isinstance(n, int):
+                    raise PyExc('TypeError: __len__ returned %r' % (n,))
+                return n != 0
+            return True
+        if isinstance(v, (Native, ClassRef, FuncRef, Bound, Closure, Gen)):
             return True
         return bool(v)
 
@@ -733,6 +757,9 @@ class Interp:
                     return self.key(a) in b
                 if isinstance(b, str):
                     return isinstance(a, str) and a in b
+                ct = self.dunder(b, '__contains__')
+                if ct is not None:
+                    return self.truth(self.call_function(ct, [a], {}, node, selfobj=b))
                 return any(self.eq(a, x) for x in self.iterate(b, node))
             if isinstance(op, ast.NotIn):
                 return not self.compare(ast.In(), a, b, node)
@@ -897,6 +924,9 @@ class Interp:
             if name == 'len' and len(args) == 1:
                 if isinstance(args[0], (str, list, tuple, dict, range)):
                     return len(args[0])
+                ln = self.dunder(args[0], '__len__')
+                if ln is not None:
+                    return self.call_function(ln, [], {}, node, selfobj=args[0])
             elif name == 'range' and 1 <= len(args) <= 3 and all(isinstance(a, int) for a in args):
                 r = range(*args)
                 if len(r) > 100000:
